@@ -20,6 +20,59 @@ theorem old_hashKey_witness :
     ∃ v w, Value.eq v w = true ∧ hashKeyOld v ≠ hashKeyOld w :=
   ⟨.float 9223372036854775808, .float 0, by decide, by decide⟩
 
+/-! ### JSON columns (repaired in /repo f72f348f) -/
+
+/-- the JSON numbers `-0.0`, `0.0`, the object `{"a": -0.0}` / `{"a": 0.0}` and the array `[0.0]` / `[-0.0]`
+    with their renderings (UTF-8 bytes) -/
+def jNegZero : Value := .json (.num (.flt 9223372036854775808)) [45, 48, 46, 48]
+def jPosZero : Value := .json (.num (.flt 0)) [48, 46, 48]
+def jObjNegZero : Value := .json (.ocons [97] (.num (.flt 9223372036854775808)) .onil) [123, 34, 97, 34, 58, 45, 48, 46, 48, 125]
+def jObjPosZero : Value := .json (.ocons [97] (.num (.flt 0)) .onil) [123, 34, 97, 34, 58, 48, 46, 48, 125]
+def jArrPosZero : Value := .json (.acons (.num (.flt 0)) .anil) [91, 48, 46, 48, 93]
+def jArrNegZero : Value := .json (.acons (.num (.flt 9223372036854775808)) .anil) [91, 45, 48, 46, 48, 93]
+def jIntZero : Value := .json (.num (.pos 0)) [48]
+
+/-- **what the repair rests on**: for every pair of JSON trees, equality under `serde_json::Value`'s
+    `PartialEq` (numbers of one kind compared by payload, floats with `f64 ==`, arrays / objects pairwise)
+    implies that `json_with_positive_zeros` maps both to the same tree -- so both render to the same text and
+    the hash index puts them into the same bucket (`eq_implies_same_hashKey` above is stated for every `Value`,
+    JSON included) -/
+theorem json_eq_implies_same_normalised_tree (a b : Json) (h : Json.eq a b = true) :
+    a.posZeros = b.posZeros :=
+  json_eq_same_posZeros a b h
+
+example : Value.eq jNegZero jPosZero = true ∧ hashKey jNegZero = hashKey jPosZero := by decide
+example : Value.eq jObjNegZero jObjPosZero = true ∧ hashKey jObjNegZero = hashKey jObjPosZero := by decide
+example : Value.eq jArrNegZero jArrPosZero = true ∧ hashKey jArrNegZero = hashKey jArrPosZero := by decide
+/-- the integer `0` and the float `0.0` are different JSON numbers (different `N` kinds) and stay in
+    different buckets -/
+example : Value.eq jIntZero jPosZero = false ∧ hashKey jIntZero ≠ hashKey jPosZero := by decide
+
+/-- the defect repaired by f72f348f: `hash_key` hashed the rendered text of the JSON value as it is, so two
+    equal JSON values (`-0.0 == 0.0`, also nested in an object or an array) got different buckets -/
+theorem json_text_hashKey_witness :
+    (Value.eq jNegZero jPosZero = true ∧ hashKeyJsonTextOld jNegZero ≠ hashKeyJsonTextOld jPosZero) ∧
+    (Value.eq jObjNegZero jObjPosZero = true ∧ hashKeyJsonTextOld jObjNegZero ≠ hashKeyJsonTextOld jObjPosZero) ∧
+    (Value.eq jArrNegZero jArrPosZero = true ∧ hashKeyJsonTextOld jArrNegZero ≠ hashKeyJsonTextOld jArrPosZero) := by
+  decide
+
+/-- the rows of the finding: `-0.0`, `0.0`, `{"a":-0.0}`, `[0.0]` -/
+def jsonFindingRows : List RowE :=
+  [⟨1, true, [jNegZero]⟩, ⟨2, true, [jPosZero]⟩, ⟨3, true, [jObjNegZero]⟩, ⟨4, true, [jArrPosZero]⟩]
+
+/-- ... and what it did to queries: on those rows `WHERE j = 0.0` is true of rows 1 and 2; through a hash index
+    keyed by the text-as-it-is bucket function the index path returns row 2 only (and `{"a":0.0}` / `[-0.0]`
+    find nothing), with the repaired bucket function it returns exactly the matching rows -/
+theorem json_text_hash_index_misses_rows_witness :
+    (jsonFindingRows.filter (matchesRow (.eq (.col 0) jPosZero))).map (·.id) = [1, 2] ∧
+    selectHashWith hashKeyJsonTextOld jsonFindingRows (.col 0) jPosZero = [2] ∧
+    selectHashWith hashKeyJsonTextOld jsonFindingRows (.col 0) jObjPosZero = [] ∧
+    selectHashWith hashKeyJsonTextOld jsonFindingRows (.col 0) jArrNegZero = [] ∧
+    selectHashWith hashKey jsonFindingRows (.col 0) jPosZero = [1, 2] ∧
+    selectHashWith hashKey jsonFindingRows (.col 0) jObjPosZero = [3] ∧
+    selectHashWith hashKey jsonFindingRows (.col 0) jArrNegZero = [4] := by
+  decide
+
 /-- the B-tree key order agrees with the value order wherever the latter is defined (so a key range is a
     superset of the matches); NaN, nulls, booleans and cross-type pairs have no value order and never match -/
 theorem cmp_agrees_with_orderedKey (v w : Value) (o : Ordering) (h : partialCmp v w = some o) :
@@ -27,6 +80,8 @@ theorem cmp_agrees_with_orderedKey (v w : Value) (o : Ordering) (h : partialCmp 
   Neumann.Rel.cmp_agrees_with_orderedKey v w o h
 
 example : partialCmp (.float 9223372036854775808) (.float 4607182418800017408) = some .lt := by decide
+/-- JSON values are ordered by their rendered text, in the condition and in the B-tree key alike -/
+example : partialCmp jNegZero jPosZero = some .lt ∧ OKey.cmp (ordKey jNegZero) (ordKey jPosZero) = .lt := by decide
 
 /-- insert / update / delete / create index / drop index (successful or failing) preserve the index invariant:
     every index holds exactly one (key, id) pair per live row, keyed by the row's current value -/
@@ -52,7 +107,24 @@ example : (tryIndexLookup (run demoSchema demoOps) (.rng .lt (.col 1) (.int 6)))
 example : select (run demoSchema demoOps) (.rng .lt (.col 1) (.int 6)) = [2, 4] := by decide
 example : columnarSelect (run demoSchema demoOps) (.rng .lt (.col 1) (.int 6)) = [2, 4] := by decide
 
-/-- **strategies agree**: in every reachable table state (every schema, every sequence of
+/-- a reachable state with a JSON column that holds the rows of the f72f348f finding, a hash index created
+    over existing rows and maintained through an insert, an update and a delete, and a B-tree index -/
+def jsonDemoSchema : List (ColType × Bool) := [(.json, true), (.int, false)]
+def jsonDemoOps : List Op :=
+  [.insert [jNegZero, .int 1], .insert [jPosZero, .int 2], .createHash (.col 0),
+   .insert [jObjNegZero, .int 3], .insert [jArrPosZero, .int 4], .insert [jIntZero, .int 5], .insert [.null, .int 6],
+   .update (.eq (.col 1) (.int 5)) [(0, jNegZero)], .delete (.eq (.col 1) (.int 2)), .createOrd (.col 0)]
+
+example : (tryIndexLookup (run jsonDemoSchema jsonDemoOps) (.eq (.col 0) jPosZero)).isSome = true := by decide
+example : spec (run jsonDemoSchema jsonDemoOps) (.eq (.col 0) jPosZero) = [1, 5] := by decide
+example : select (run jsonDemoSchema jsonDemoOps) (.eq (.col 0) jPosZero) = [1, 5] := by decide
+example : select (run jsonDemoSchema jsonDemoOps) (.eq (.col 0) jObjPosZero) = [3] := by decide
+example : count (run jsonDemoSchema jsonDemoOps) (.eq (.col 0) jArrNegZero) = 1 := by decide
+example : (tryIndexLookup (run jsonDemoSchema jsonDemoOps) (.rng .le (.col 0) jPosZero)).isSome = true := by decide
+example : select (run jsonDemoSchema jsonDemoOps) (.rng .le (.col 0) jPosZero) = [1, 5] := by decide
+
+/-- **strategies agree**: in every reachable table state (every schema -- JSON columns included since the
+    repair f72f348f --, every sequence of
     inserts / updates / deletes / index creations / index drops) and for every condition tree, the full scan,
     the index path of `select` (hash lookup or B-tree range, then re-check), `select_with_limit`, `count`,
     the streaming cursor and the vectorised columnar filter all return exactly `rows.filter (evaluate c)`
